@@ -414,7 +414,145 @@ def check_xproc(case):
     return True, ["cross-process"]
 
 
+# ---- topology changed at run time, under equivalent spellings of the servers -------------------------------------------
+
+TOPO_UNIVERSE = [("Cache-A", 11211), ("mc2", 11212), ("10.0.0.3", 11211), "/tmp/u.sock", ("mc2", 11213)]
+TOPO_KEYS = ["k%d" % i for i in range(12)]
+
+
+def _topo_name(spec):
+    return "%s:%s" % spec if isinstance(spec, tuple) else spec
+
+
+def _topo_add(c, spec, sp):
+    """the spellings add_server takes for a (host, port) server: the tuple, the tuple with the port as text, 'host:port', and the
+    legacy two-argument form with an int or a text port"""
+    if not isinstance(spec, tuple) or sp == 0:
+        c.add_server(spec)
+    elif sp == 1:
+        c.add_server((spec[0], str(spec[1])))
+    elif sp == 2:
+        c.add_server("%s:%d" % spec)
+    elif sp == 3:
+        c.add_server(spec[0], spec[1])
+    else:
+        c.add_server(spec[0], str(spec[1]))
+
+
+def _topo_run(case, alt):
+    from vlib.harness import Env, virtual_time
+    from pymemcache.exceptions import MemcacheError
+    env = Env(addrs=TOPO_UNIVERSE)
+    rounds = []
+    added = list(case["initial"])
+    with virtual_time(env.clock):
+        c = HashClient([TOPO_UNIVERSE[i] for i in case["initial"]], socket_module=env.net, retry_attempts=0, dead_timeout=60, retry_timeout=1,
+                       ignore_exc=case["ignore_exc"], use_pooling=case["pooled"], timeout=1, default_noreply=False)
+        for ev in list(case["events"]) + [("up", None), ("adv", 61), ("t",), ("adv", 61), ("t",)]:
+            if ev[0] == "add":
+                _topo_add(c, TOPO_UNIVERSE[ev[1]], ev[2] if alt else 0)
+                if ev[1] not in added:
+                    added.append(ev[1])
+            elif ev[0] == "down":
+                env.servers[ev[1]].down = ev[2]
+            elif ev[0] == "up":
+                for i, s in enumerate(env.servers):
+                    if ev[1] in (None, i):
+                        s.down = None
+            elif ev[0] == "adv":
+                env.clock.advance(ev[1])
+            else:
+                marks = [len(s.log) for s in env.servers]
+                errs = []
+                for k in TOPO_KEYS:
+                    try:
+                        c.get(k)
+                    except (OSError, MemcacheError) as e:
+                        errs.append(type(e).__name__)
+                    except Exception as e:  # noqa: BLE001
+                        raise Violation(["topology", "internal-error", type(e).__name__], "get(%r) raised %r" % (k, e))
+                    if errs and case["ignore_exc"]:
+                        raise Violation(["topology", "escaped-with-ignore_exc"], "get(%r) raised %s with ignore_exc" % (k, errs[-1]))
+                where = {}
+                for i, s in enumerate(env.servers):
+                    for rec in s.log[marks[i]:]:
+                        for kk in rec.get("keys", ()):
+                            where[kk.decode()] = i
+                try:
+                    c.get_many(TOPO_KEYS)
+                except (OSError, MemcacheError) as e:
+                    if case["ignore_exc"]:
+                        raise Violation(["topology", "escaped-with-ignore_exc"], "get_many raised %r with ignore_exc" % (e,))
+                except Exception as e:  # noqa: BLE001
+                    raise Violation(["topology", "internal-error", type(e).__name__], "get_many raised %r" % (e,))
+                rounds.append((where, sorted(set(errs))))
+        c.close()
+    return rounds, added
+
+
+def check_topology(case):
+    """The same history of run-time add_server calls, outages and elapsed time, once with every server spelled as the
+    (host, port) tuple and once with other spellings of the same servers: the keys must go to the same servers at every
+    point; no internal error may escape; in the end (all servers up, two dead_timeouts of traffic) placement is the
+    rendezvous rule over all the servers the application added."""
+    desc = "initial %r, events %r, ignore_exc=%r, pooled=%r" % ([TOPO_UNIVERSE[i] for i in case["initial"]], case["events"], case["ignore_exc"], case["pooled"])
+    try:
+        a, added = _topo_run(case, False)
+        b, _ = _topo_run(case, True)
+    except Violation as v:
+        raise Violation(v.signature, "%s: %s" % (v, desc))
+    for i, (x, y) in enumerate(zip(a, b)):
+        if x != y:
+            raise Violation(["topology", "spelling-changes-placement"], "traffic round %d: with tuple spellings keys went to %r (errors %r), with the other spellings to %r (errors %r): %s"
+                            % (i, x[0], x[1], y[0], y[1], desc))
+    names = [_topo_name(TOPO_UNIVERSE[i]) for i in added]
+    for k in TOPO_KEYS:
+        want = names.index(refhash.place(names, k))
+        got = a[-1][0].get(k)
+        if got is None or added.index(got) != want:
+            raise Violation(["topology", "final-placement"], "after the history, with all servers healthy, %r goes to %r; the rule over %r gives %r: %s"
+                            % (k, None if got is None else _topo_name(TOPO_UNIVERSE[got]), names, names[want], desc))
+    readd_dead = any(e[0] == "add" for e in case["events"]) and any(e[0] == "down" for e in case["events"])
+    return True, ["topology", "re-add+outage" if readd_dead else "plain", "ignore_exc=%r" % case["ignore_exc"]]
+
+
+def topology_strategy(tier):
+    ev = st.one_of(st.tuples(st.just("add"), st.integers(0, len(TOPO_UNIVERSE) - 1), st.integers(1, 4)),
+                   st.tuples(st.just("down"), st.integers(0, len(TOPO_UNIVERSE) - 1), st.sampled_from(["refused", "timeout", "reset-recv"])),
+                   st.tuples(st.just("up"), st.integers(0, len(TOPO_UNIVERSE) - 1)),
+                   st.tuples(st.just("adv"), st.sampled_from([1.5, 30, 61])),
+                   st.tuples(st.just("t")), st.tuples(st.just("t")))
+    return st.fixed_dictionaries({"initial": st.lists(st.integers(0, len(TOPO_UNIVERSE) - 1), min_size=1, max_size=4, unique=True),
+                                  "events": st.lists(ev, min_size=1, max_size=12), "ignore_exc": st.booleans(), "pooled": st.booleans()})
+
+
+def topology_cases(tier, seed):
+    """a dead server re-added by the application under every spelling, at every point of the outage"""
+    for target in (0, 1, 2):
+        for sp in (1, 2, 3, 4):
+            for kind in ("refused", "timeout"):
+                for when in range(4):
+                    for ie in (False, True):
+                        evs = [("down", target, kind), ("t",), ("adv", 1.5), ("t",), ("up", target), ("t",)]
+                        evs.insert(2 + when, ("add", target, sp))
+                        yield {"initial": [0, 1, 2, 3], "events": evs + [("t",), ("adv", 30), ("t",)], "ignore_exc": ie, "pooled": bool((target + sp + when) % 2)}
+    # several servers (a UNIX socket among them) down at once and due back in the same sweep; servers added at run time fail
+    for downs in itertools.combinations(range(4), 2):
+        for ie in (False, True):
+            for late in ((), (4,)):
+                evs = [("add", i, 1 + (i + len(late)) % 4) for i in late] + [("down", i, "refused") for i in downs] + [("t",), ("t",), ("adv", 61), ("up", None), ("t",), ("t",)]
+                yield {"initial": [0, 1, 2, 3], "events": evs, "ignore_exc": ie, "pooled": bool(sum(downs) % 2)}
+    for sp in (0, 1, 2, 3, 4):
+        for ie in (False, True):
+            for kind in ("refused", "timeout", "reset-recv"):
+                yield {"initial": [1, 3], "events": [("add", 0, sp), ("t",), ("down", 0, kind), ("t",), ("t",), ("adv", 1.5), ("t",), ("up", 0)],
+                       "ignore_exc": ie, "pooled": bool(sp % 2)}
+
+
 PARTS = [
+    Part("topology-histories", "enum", check_topology, cases=topology_cases, shards={"quick": 4, "thorough": 8}, exhaustive=True),
+    Part("random-topology-histories", "hyp", check_topology, strategy=topology_strategy,
+         examples={"quick": 60, "thorough": 3000}, shards={"quick": 4, "thorough": 16}),
     Part("placement", "hyp", check_placement, strategy=placement_strategy,
          examples={"quick": 50, "thorough": 500}, shards={"quick": 8, "thorough": 16}),
     Part("rings-side-by-side", "enum", check_multi_ring, cases=multi_ring_cases, shards={"quick": 2, "thorough": 8}),
